@@ -20,7 +20,7 @@ ASSUMPTIONS = [
     'handler tables are read through the internal names _handlers/_globals/_tasks (inconclusive if they disappear)',
     'a generator handler that yields None right after catching TimeoutError is not generated',
 ]
-REQUIRED = ['callee_on_explicit_channel', 'falsy_value_after_call', 'call_by_object', 'wait_by_object', 'wait_by_name', 'nested_call', 'sequential_calls', 'callee_raises_plain',
+REQUIRED = ['callee_on_explicit_channel', 'callee_with_success_channels', 'falsy_value_after_call', 'call_by_object', 'wait_by_object', 'wait_by_name', 'nested_call', 'sequential_calls', 'callee_raises_plain',
             'callee_generator_raises_first_step', 'callee_generator_raises_after_yield', 'callee_multi_handler', 'timeout_expired',
             'timeout_not_expired', 'timeout_zero', 'roots_in_flight_2plus', 'same_event_type_called_concurrently']
 REQUIRED_OBLIGATIONS = ['RESUME_ONCE', 'RESULT', 'AFTER_CALLEE', 'TIMEOUT_NOT_EARLY', 'CALLER_FEEDBACK', 'CALLER_VALUE', 'RESIDUE']
@@ -149,6 +149,8 @@ def evaluate(case, w, norm, before, after, comps):
             problems.append(('AFTER_CALLEE', detail))
     if any(h.get('channel') for h in case['handlers']):
         marks.add('callee_on_explicit_channel')
+    if any(a[0] in ('call', 'wait', 'waitname') and a[1].get('success_channels') for h in case['handlers'] for a in h['body']):
+        marks.add('callee_with_success_channels')
     for h in case['handlers']:
         b_ = h['body']
         if any(a[0] == 'yieldlit' and i > 0 and b_[i - 1][0] in ('call', 'wait', 'waitname') for i, a in enumerate(b_)):
@@ -226,6 +228,14 @@ def corpus():
         HD(1, 'a', [['call', dict(E('b'), channels=['a'])], ['wait', dict(E('c'), channels=['a'])], ['ret', 'end']], gen=True),
         dict(HD(2, 'b', [['yield', 'b1'], ['ret', 'b2']], gen=True), channel='a'), dict(HD(3, 'c', [['ret', 'c']]), channel='a'),
         dict(HD(4, 'c', [['call', dict(E('b'), channels=['a'])], ['ret', 'c2']], gen=True, prio=1), channel='a')],
+        'fires': [E('a', flags=SF), E('a', flags=SF)]})
+    # callee on an explicit channel whose success notification is routed elsewhere (success_channels, as circuits.node sets it):
+    # the caller must still be resumed - the internal done notification belongs to the channels the callee was fired on
+    SC = {'success_channels': ['elsewhere']}
+    cs.append({'name': 'callee-with-success-channels', 'handlers': [
+        HD(1, 'a', [['call', dict(E('b', **SC), channels=['a'])], ['wait', dict(E('c', flags={'success': True}, **SC), channels=['a'])],
+                    ['call', dict(E('b', flags={'success': True}, **SC), channels=['a']), {'timeout': 30}], ['ret', 'end']], gen=True),
+        dict(HD(2, 'b', [['yield', 'b1'], ['ret', 'b2']], gen=True), channel='a'), dict(HD(3, 'c', [['ret', 'c']]), channel='a')],
         'fires': [E('a', flags=SF), E('a', flags=SF)]})
     # falsy (non-None) values relayed right after a call / wait, and a bare yield right after a call
     cs.append({'name': 'falsy-relay', 'handlers': [
@@ -322,6 +332,10 @@ def gen_case(rng):
         for a in h['body']:
             if a[0] in ('call', 'wait', 'waitname', 'fire') and a[1]['name'] in on_chan:
                 a[1]['channels'] = ['a']
+                if rng.random() < 0.35:
+                    a[1]['success_channels'] = ['elsewhere']
+                    if rng.random() < 0.5:
+                        a[1].setdefault('flags', {})['success'] = True
     fires = [{'name': rn, 'flags': {f: rng.random() < 0.6 for f in ('success', 'complete')}} for rn in roots]
     # names waited by name must not be fired by anybody else while the wait is open: drop plain fires/calls of them
     for h in handlers:
